@@ -1217,13 +1217,33 @@ def i_run_coro(it, args, kw):
     return it.await_value(args[0])
 
 
+def _closure_env(fn, name):
+    f = fn.func if isinstance(fn, SBound) else fn
+    if not isinstance(f, SFunc):
+        raise Unsupported("set_closure/get_closure of a non-interpreted function")
+    e = f.env
+    while e is not None:
+        if name in e.vars:
+            return e
+        e = e.parent
+    raise Unsupported(f"closure variable {name} not found")
+
+
+def i_set_closure(it, args, kw):
+    _closure_env(args[0], args[1]).vars[args[1]] = args[2]
+
+
+def i_get_closure(it, args, kw):
+    return _closure_env(args[0], args[1]).vars[args[1]]
+
+
 def i_new_object(it, args, kw):
     return SObj(args[0], dict(kw))
 
 
 INTRINSICS = {
     "new_object": i_new_object, "sym_text": i_sym_text, "sym_idset": i_sym_idset,
-    "real": i_real, "run_coro": i_run_coro, "set_global": i_set_global, "get_global": i_get_global, "id_mapping": (lambda it, args, kw: args[0]),
+    "real": i_real, "run_coro": i_run_coro, "set_closure": i_set_closure, "get_closure": i_get_closure, "set_global": i_set_global, "get_global": i_get_global, "id_mapping": (lambda it, args, kw: args[0]),
     "ghost": (lambda it, args, kw: it.ex.ghosts.setdefault(args[0], [])),
     "is_concrete": (lambda it, args, kw: not is_symbolic(args[0])),
     "sym_int": i_sym_int, "sym_bool": i_sym_bool, "sym_str": i_sym_str, "sym_float": i_sym_float,
